@@ -152,7 +152,7 @@ def newMergeIterator (iters : List AnyIter) (reverse : Bool) : Option AnyIter :=
 
 /-- Insert `e` at its sorted position under `cmp` unless an entry with the same key is
     already present (then the existing entry, which came from an earlier input, wins). -/
-def insertIfAbsent (cmp : Bytes → Bytes → Ordering) (e : Entry) : List Entry → List Entry
+def insertIfAbsent (cmp : Bytes → Bytes → Ordering) (e : ItEntry) : List ItEntry → List ItEntry
   | [] => [e]
   | x :: xs =>
     match cmp e.key x.key with
@@ -162,10 +162,10 @@ def insertIfAbsent (cmp : Bytes → Bytes → Ordering) (e : Entry) : List Entry
 
 /-- Sorted union under `cmp`; for equal keys the copy from the earliest input is kept:
     all entries, earliest input first, are inserted-if-absent into a sorted list. -/
-def mergeSpecG (cmp : Bytes → Bytes → Ordering) (inputs : List (List Entry)) : List Entry :=
+def mergeSpecG (cmp : Bytes → Bytes → Ordering) (inputs : List (List ItEntry)) : List ItEntry :=
   inputs.flatten.foldl (fun acc e => insertIfAbsent cmp e acc) []
 
 /-- `mergeSpec`: sorted union under `compareKeys` with earliest-input precedence. -/
-def mergeSpec (inputs : List (List Entry)) : List Entry := mergeSpecG compareKeys inputs
+def mergeSpec (inputs : List (List ItEntry)) : List ItEntry := mergeSpecG compareKeys inputs
 
 end Badger
